@@ -328,6 +328,37 @@ func c14Worker(w *W) {
 		}
 		after := c14listing(dir)
 		ok := c14judge(w, c, before, after, names, cs, how)
+		if ok && !e2e && ci%3 == 0 {
+			// the same appender scans again later: meanwhile some surviving own files were written to (their
+			// modification time is now) and the retention was shortened to one hour. The decision must follow
+			// the files' current state, not anything remembered from the first scan.
+			c2 := &c14case{FileName: c.FileName, MaxAge: 1, Sibling: c.Sibling}
+			now := time.Now()
+			for _, e := range c.Ents {
+				if _, still := after[e.Name]; !still {
+					continue
+				}
+				e2 := e
+				inBand := e.AgeMin >= 40 && e.AgeMin <= 80 // too close to the new one-hour cut-off: made young instead
+				if (!e.Dir && (e.Class == "own" || e.Class == "own-recent-name" || e.Class == "sibling-wf") && r.IntN(2) == 0) || inBand {
+					p := filepath.Join(dir, e.Name)
+					_ = os.Chtimes(p, now, now)
+					e2.AgeMin = 0
+				}
+				c2.Ents = append(c2.Ents, e2)
+			}
+			for _, a := range aps {
+				a.MaxAge = 1
+				a.VerifClearExpiredFiles()
+			}
+			before2 := after
+			after2 := c14listing(dir)
+			cs2 := map[string]any{"index": ci, "case": c2, "second_scan": true}
+			if !c14judge(w, c2, before2, after2, names, cs2, "second scan of the same appender after touching files, maxAge lowered to 1h") {
+				ok = false
+			}
+			w.Count("second_scans", 1)
+		}
 		for _, a := range aps {
 			a.Stop()
 		}
@@ -364,7 +395,7 @@ func init() {
 		ID: "C14", Level: "exploration", MinDistinct: 20, Worker: c14Worker,
 		Rule: "directory states generated per case: 3-10 own rotated files '<name>.<14 digits>', 2-5 sibling '<name>.wf.<ts>' files, 4-11 foreign prefix-sharing or unrelated files from 17 shapes (name.audit.<ts>, name.bak, name.1.gz, 13/15-digit suffixes, name.<ts>.gz, 'name.', 'name', namex.<ts>, upper-case, letters/sign inside the digits, ...), sub-directories incl. one named exactly like an own file; " +
 			"modification times set to T0-age with ages 0, maxAge∓11 min, ∓1 h, far expired, uniformly young; names in {app.log, svc, a.b.c, x-1_y}; 1-3 own files whose name carries a recent or future local time while the file itself is old (and vice versa); workers run in six time zones (TZ); maxAge over 1..720 h with emphasis on 1-3 and 590-720; optionally a sibling '<name>.wf' appender cleaning the same directory. The appender is started (current file exists) and the scan runs through the guarded synchronous entry; a second worker kind lets a real 1 s rotation trigger the asynchronous scan and polls the directory. " +
-			"Oracle: survivors = everything except regular files matching ^<name>\\.\\d{14}$ older than maxAge hours (no file lies within 10 min of the cut-off). Non-trivial/distinct = distinct (trigger, name, maxAge band, sibling, something deleted) classes that matched.",
+			"Oracle: survivors = everything except regular files matching ^<name>\\.\\d{14}$ older than maxAge hours (no file lies within 10 min of the cut-off). In every third case the same appender scans a second time after half of the surviving own files were touched (modification time = now) and maxAge was lowered to 1 h. Non-trivial/distinct = distinct (trigger, name, maxAge band, sibling, something deleted) classes that matched.",
 		Assumptions: []string{"files within 10 minutes of the cut-off are never generated; a case taking longer than that is inconclusive", "modification times are set with os.Chtimes"},
 		Run: func(d *D) {
 			var specs []Spec
